@@ -35,11 +35,14 @@ func cmdManifest() int {
 		}
 		served = append(served, id)
 		var ruleIDs []string
+		var ruleDocs []string
 		for _, r := range rules.ResolvedRules(p) {
 			ruleIDs = append(ruleIDs, r.ID)
+			ruleDocs = append(ruleDocs, r.ID+": "+r.Doc)
 		}
 		text := "Static analysis decides structural NECESSARY conditions of " + id + " on every path of the current source (not the behaviour itself): " + p.Explanation +
-			" Level 'other': a green check means these mechanism clauses are intact for all inputs/schedules; it does not prove the behavioural statement."
+			" Level 'other': a green check means these mechanism clauses are intact for all inputs/schedules; it does not prove the behavioural statement." +
+			" Rules evaluated (every obligation is keyed by rule + resolved construct): " + strings.Join(ruleDocs, " | ")
 		checks = append(checks, check{
 			PropertyID: id,
 			QuickCmd:   "./check " + id + " quick",
